@@ -28,7 +28,7 @@ func AllFlagSets() []uint {
 
 var StrayFlags = []uint{1, 32, 30 | 1, ^uint(0)}
 
-var Sinks = []string{"null", "file", "full", "closed", "brokenpipe"}
+var Sinks = []string{"null", "file", "full", "closed", "brokenpipe", "slow", "stuck"}
 
 func RandFlags(r *Rand) uint {
 	switch {
@@ -264,8 +264,9 @@ func RandNet(r *Rand, n int, timeoutMs int64, faults bool) *plan.NetPlan {
 		if timeoutMs > 0 {
 			np.NoAnswer = true
 		}
-	case 2:
-		np.Status = Pick(r, []int{204, 404, 500, 301})
+	case 2, 6:
+		np.Status = Pick(r, HTTPStatuses)
+		np.Headers = append(np.Headers, StatusHeaders(r, np.Status)...)
 	case 3, 4:
 		np.Redirects = r.Range(1, 4)
 	case 5:
@@ -295,6 +296,41 @@ func RandNet(r *Rand, n int, timeoutMs int64, faults bool) *plan.NetPlan {
 		}
 	}
 	return np
+}
+
+// HTTPStatuses: the registered status codes a server may answer a GET with (1xx are consumed by the client).
+var HTTPStatuses = []int{200, 201, 202, 203, 204, 205, 206, 207, 226, 300, 301, 302, 303, 304, 305, 307, 308, 400, 401, 402, 403, 404, 405, 406, 407, 408, 409, 410, 411, 412, 413, 414, 415, 416, 417, 418, 421, 422, 423, 424, 425, 426, 428, 429, 431, 451, 500, 501, 502, 503, 504, 505, 506, 507, 508, 510, 511, 299, 399, 499, 599, 999}
+
+// delays: values of headers that carry a delay or a date (RFC 9110: delay-seconds or HTTP-date)
+var headerDelays = []string{"0", "1", "120", "3600", "86400", "2147483648", "99999999999999999999", "-5", "soon", "Fri, 31 Dec 2100 23:59:59 GMT", "Sat, 01 Jan 2000 00:00:10 GMT", "Thu, 01 Jan 1970 00:00:00 GMT"}
+
+// StatusHeaders returns the response headers that typically accompany a status code.
+func StatusHeaders(r *Rand, status int) [][2]string {
+	var h [][2]string
+	switch status {
+	case 429, 503, 301, 302, 303, 307, 308, 202, 413:
+		h = append(h, [2]string{"Retry-After", Pick(r, headerDelays)})
+	}
+	switch status {
+	case 401:
+		h = append(h, [2]string{"WWW-Authenticate", `Basic realm="x"`})
+	case 407:
+		h = append(h, [2]string{"Proxy-Authenticate", `Basic realm="x"`})
+	case 405:
+		h = append(h, [2]string{"Allow", "POST"})
+	case 206, 416:
+		h = append(h, [2]string{"Content-Range", Pick(r, []string{"bytes 0-99/200", "bytes */200", "bytes 0-0/*"})})
+	case 426:
+		h = append(h, [2]string{"Upgrade", "h2c"}, [2]string{"Connection", "Upgrade"})
+	case 201, 300:
+		h = append(h, [2]string{"Content-Location", "/other"})
+	case 304:
+		h = append(h, [2]string{"ETag", `"abc"`})
+	}
+	if r.P(1, 4) {
+		h = append(h, [2]string{Pick(r, []string{"Refresh", "Retry-After", "Age", "Expires", "Date", "Last-Modified", "Keep-Alive", "X-RateLimit-Reset", "Sunset"}), Pick(r, headerDelays)})
+	}
+	return h
 }
 
 var HandTrees = []string{"text", "comment", "doctype", "emptydoc", "orphan-element", "orphan-empty", "orphan-span", "orphan-b",
